@@ -501,7 +501,7 @@ class WireError(Exception):
     pass
 
 
-def parse_responses(wire, methods, closed=True):
+def parse_responses(wire, methods, closed=True, final_1xx=False):
     """Parse the server's byte stream as an RFC 9112 client would.
     methods: request methods in order (needed for HEAD).  Raises WireError on
     any byte that cannot be accounted for.  Interim (1xx) responses are
@@ -535,7 +535,7 @@ def parse_responses(wire, methods, closed=True):
                 raise WireError(f"malformed response field line {ln!r}")
             r.fields.append((ln[:c], ows_trim(ln[c + 1 :])))
         pos = end + 4
-        if 100 <= r.status < 200:
+        if 100 <= r.status < 200 and not final_1xx:
             r.framing = "none"
             r.end = pos
             out.append(r)
@@ -546,7 +546,7 @@ def parse_responses(wire, methods, closed=True):
         mi += 1
         te = r.get(b"transfer-encoding")
         cl = r.get(b"content-length")
-        if method == b"HEAD" or r.status in (204, 304):
+        if method == b"HEAD" or r.status in (204, 304) or r.status < 200:
             r.framing = "none"
         elif te:
             if [t.strip().lower() for v in te for t in v.split(b",")] != [b"chunked"]:
